@@ -71,6 +71,42 @@ func c09Setter(name string, n, pre int) (s stun.Setter, accept bool, classOK fun
 	overflow := func(err error) bool { return stun.IsAttrSizeOverflow(err) }
 	badIP := func(err error) bool { return errors.Is(err, stun.ErrBadIPLength) }
 	ipOK := n == 4 || n == 16
+	if len(name) > 3 && name[:3] == "ip:" { // ip:<pattern>:<setter>
+		pat := name[3]
+		name = name[5:]
+		ip := make([]byte, n)
+		switch pat {
+		case 'z':
+		case 'f':
+			for i := range ip {
+				ip[i] = 0xff
+			}
+		case 'm': // the IPv4-mapped prefix: bytes 0..9 zero, bytes 10..11 0xff
+			for i := range ip {
+				if i == 10 || i == 11 {
+					ip[i] = 0xff
+				} else if i >= 12 {
+					ip[i] = byte(i)
+				}
+			}
+		}
+		switch name {
+		case "XORMappedAddress":
+			return &stun.XORMappedAddress{IP: net.IP(ip), Port: 7}, ipOK, badIP, "ErrBadIPLength"
+		case "XORMappedAddress.AddToAs":
+			return setterFunc(func(m *stun.Message) error {
+				return stun.XORMappedAddress{IP: net.IP(ip), Port: 7}.AddToAs(m, stun.AttrXORRelayedAddress)
+			}), ipOK, badIP, "ErrBadIPLength"
+		case "MappedAddress":
+			return &stun.MappedAddress{IP: net.IP(ip), Port: 7}, ipOK, badIP, "ErrBadIPLength"
+		case "AlternateServer":
+			return &stun.AlternateServer{IP: net.IP(ip), Port: 7}, ipOK, badIP, "ErrBadIPLength"
+		case "ResponseOrigin":
+			return &stun.ResponseOrigin{IP: net.IP(ip), Port: 7}, ipOK, badIP, "ErrBadIPLength"
+		case "OtherAddress":
+			return &stun.OtherAddress{IP: net.IP(ip), Port: 7}, ipOK, badIP, "ErrBadIPLength"
+		}
+	}
 	if len(name) > 5 && name[:5] == "utf8:" { // utf8:<width>:<setter>
 		width := int(name[5] - '0')
 		v := utf8Of(n, width)
@@ -282,6 +318,15 @@ func init() {
 				for _, name := range []string{"XORMappedAddress", "XORMappedAddress.AddToAs", "MappedAddress", "AlternateServer", "ResponseOrigin", "OtherAddress"} {
 					for n := 0; n <= 20; n++ {
 						do(c09Case{Setter: name, N: n, Pre: pre})
+					}
+				}
+				if pre < 2 {
+					for _, pat := range []string{"z", "f", "m"} {
+						for _, name := range []string{"XORMappedAddress", "XORMappedAddress.AddToAs", "MappedAddress", "AlternateServer", "ResponseOrigin", "OtherAddress"} {
+							for n := 0; n <= 24; n++ {
+								do(c09Case{Setter: "ip:" + pat + ":" + name, N: n, Pre: pre})
+							}
+						}
 					}
 				}
 				for code := 0; code <= 999; code++ {
